@@ -90,7 +90,7 @@ def run_S4(ctx, case):
             m.gpr[4] = Ptr('stack', 64)
             try:
                 r = m.run(BASE, stop={BASE + n}, max_steps=16)
-            except (Undecodable, Fault, OOB) as e:
+            except (Fault, OOB) as e:      # Undecodable = limitation of the x86 model: propagates, the job is INCONCLUSIVE (never a violation)
                 q.n += 1; q.sat += 1; q.failed.append((tag + ': emitted bytes do not execute: %s [%s]' % (e, ' '.join('%02x' % b if is_c(b) else '??' for b in code)), {})); continue
             npaths += 1; pc = it2.fork['pc'] + rules
             for k in range(8): q.prove_eq(pc, m.gpr[8 + k], exp[k], '%s: native r%d == spec 6.1 == interpreter' % (tag, k), 64)
